@@ -44,7 +44,7 @@ func loadProgram(repo string, patterns []string, extraContracts []string) (*Prog
 	os.Setenv("GOSUMDB", "off")
 	os.Setenv("GOTOOLCHAIN", "local")
 	cfg := &packages.Config{
-		Mode:       packages.LoadAllSyntax,
+		Mode:       packages.LoadAllSyntax | packages.NeedModule,
 		Dir:        repo,
 		BuildFlags: []string{"-tags", "verif"},
 	}
